@@ -260,6 +260,41 @@ class DataLoggerSpec(Spec):
         return datalogger.det_cases(tier)
 
 
+class ValidationSpec(Spec):
+    prop = "C09"
+    harness = "validation"
+    level = "exploration"
+    batch = 100
+    rule = ("one run = 1-3 baton-scheduled tasks (real threads, switching at every operation boundary by seeded choice) "
+            "each execute a generated program of nested `with disable_message_validation(ignore=...)` blocks (depth <= 3) "
+            "left normally, by an exception raised in the body, or by an exception the library itself raises inside the "
+            "block, interleaved with probes (is validation in force?) and assignments drawn from a boundary table of "
+            "about 1300 cases over every validator kind (8 integer widths, float, double, char, string, byte, byte "
+            "array, int / float arrays, struct, struct array): min-1, min, max, max+1, +-inf, NaN, huge ints, bools, "
+            "wrong python types, wrong lengths, a single bad element at every position (also next to NaN), every slice "
+            "shape, array-from-array.  The deterministic part runs table cases once each (all in thorough, every third "
+            "in quick).  non-trivial = the run contained a refusal or an in-force probe; distinct = distinct trace")
+    expected_probes = ("probe_in_force", "probe_inside_block", "validation_off_inside_block", "block_exception",
+                       "block_lib_exception", "nested_block", "tasks_3", "assign_set", "assign_item", "assign_slice",
+                       "assign_from", "refused", "accepted")
+    components = {"real": ["pyrtma.validators (all descriptors, disable_message_validation)", "pyrtma.message_base",
+                           "pyrtma.message_data"],
+                  "stub": ["baton-scheduled tasks instead of OS-scheduled threads"]}
+    assumptions = ["bool offered to an integer field, NaN offered to a float field and bytes offered to a numeric array "
+                   "are don't-care (statement silent)",
+                   "the value-domain half is input enumeration riding on the harness; simulation decides the "
+                   "disable-block / per-task half (DESIGN 5.9)"]
+
+    def run(self, choices, forced=None):
+        from harness import validation
+        return validation.run(choices, forced)
+
+    def deterministic_cases(self, tier):
+        from harness import validation
+        self.prepare()
+        return validation.det_cases(tier)
+
+
 _SPECS = {}
 
 
@@ -281,6 +316,7 @@ def _register():
     _SPECS["C08"] = ReadPathSpec()
     _SPECS["C18"] = StatsSpec()
     _SPECS["C17"] = DataLoggerSpec()
+    _SPECS["C09"] = ValidationSpec()
 
 
 def get_spec(prop: str) -> Spec:
